@@ -191,6 +191,17 @@ func (ex *Exec) dispatch(v ssa.Value, cc *ssa.CallCommon, instr ssa.Instruction,
 			ex.applyContract(v, fc, key, names, args, sig, instr)
 			return
 		}
+		if cc.Method.Pkg() != nil && cc.Method.Pkg() != vc.ctx.tpkg {
+			// method declared by another package's interface (error, reflect.Type,
+			// io.Reader ...): assumption A-EXT, no interpreter state is written
+			if ex.pass == 2 {
+				vc.externals["invoke "+key]++
+			}
+			if v != nil {
+				ex.freshVal(v, "ext")
+			}
+			return
+		}
 		ex.abstractCall(v, "invoke "+key)
 		return
 	}
